@@ -58,6 +58,8 @@ type callSpec struct {
 	// ReplCtx: the handler replaces the message context with one derived from it (adds a value): whatever a middleware
 	// installed for the call is gone after the call all the same
 	ReplCtx bool
+	// Outlast: the handler works until the deadline it sees has passed (only deadlines within 100 ms count) and then returns its result
+	Outlast bool
 }
 
 type callObs struct {
@@ -86,6 +88,11 @@ func (s *script) handler(msg *message.Message) ([]*message.Message, error) {
 	s.obs = append(s.obs, o)
 	if sp.SetCorr {
 		middleware.SetCorrelationID(fmt.Sprintf("assigned-in-call-%d", i), msg)
+	}
+	if sp.Outlast {
+		if dl, ok := msg.Context().Deadline(); ok && time.Until(dl) < 100*time.Millisecond {
+			<-msg.Context().Done()
+		}
 	}
 	if sp.ReplCtx {
 		msg.SetContext(context.WithValue(msg.Context(), replCtxKey{}, i))
@@ -273,7 +280,7 @@ func genElem(t *rapid.T, allowRetry bool) elem {
 	e := elem{Kind: rapid.SampledFrom(kinds).Draw(t, "middleware")}
 	switch e.Kind {
 	case "timeout":
-		e.D = rapid.SampledFrom([]time.Duration{time.Minute, 10 * time.Minute, 2 * time.Hour}).Draw(t, "timeout")
+		e.D = rapid.SampledFrom([]time.Duration{time.Minute, 10 * time.Minute, 2 * time.Hour, 2 * time.Millisecond}).Draw(t, "timeout")
 	case "retry":
 		e.Retries = rapid.IntRange(1, 3).Draw(t, "maxRetries")
 	case "delay":
@@ -318,6 +325,14 @@ func genCase(t *rapid.T) caseT {
 			sp.Err = 2
 		}
 		c.Specs = append(c.Specs, sp)
+	}
+	for _, e := range c.Chain {
+		if e.Kind == "timeout" && e.D < time.Second {
+			// a timeout that really passes: every call outlasts it, so that nothing depends on how fast the machine is
+			for i := range c.Specs {
+				c.Specs[i].Outlast = true
+			}
+		}
 	}
 	c.CorrID = rapid.SampledFrom([]string{"", "corr-1", "é"}).Draw(t, "correlationID")
 	c.HasDeadline = rapid.IntRange(0, 2).Draw(t, "existingDeadline") == 0
